@@ -201,6 +201,7 @@ for name, behs, sampling in groups:
             c.inconclusive('; '.join(again['inconclusive'][:3]))
         if not [x for x in again['violations'] if x['signature'] == v['signature']]:
             c.unreproduced('violation %s not reproduced on a second run' % v['signature'])
+            continue
         c.report(v['signature'], v['detail'], {'behaviour': b, 'sampling': sampling, 'harness': 'c13'})
     c.log('replayed %s: %d behaviours, %d steps, %d violation(s)' % (name, res['behaviours'], res['steps'], len(res['violations'])))
 
